@@ -1,15 +1,14 @@
 import PhysisModel.Base.Proto
+import PhysisModel.Driver.C18Util
 import PhysisModel.Model.C18Hdr
+import PhysisModel.Driver.C18Fmt
+import PhysisModel.Driver.C18Arc
+import PhysisModel.Driver.C18Mat
+import PhysisModel.Driver.C18Skel
+import PhysisModel.Driver.C18Mdl
+import PhysisModel.Driver.C18Pbc
 namespace Physis.Driver.C18
 open Physis Physis.Proto Physis.A
-
-/-- an asset entry point on bytes: the expected answer is the outcome class of the model
-(`none` / `some`); a fault of the model (never, by the `c18_*_total` theorems) would be printed
-as `fault:<kind>` and can only disagree with the implementation's `panic:` line. -/
-def asset {α : Type} (e : Bytes → Res α) (h : String) : String :=
-  match Bytes.ofHexFast h with
-  | some b => answer "=" (e b).cls
-  | none => bad
 
 /-- one case line in, one answer line out (see `Base/Proto.lean`) -/
 def handle (line : String) : String :=
@@ -27,6 +26,11 @@ def handle (line : String) : String :=
   | ["sqdb", h] => asset C18Hdr.sqdb h
   | ["exh", h] => asset C18Hdr.exh h
   | ["exd", h] => asset C18Hdr.exd h
-  | _ => bad
+  | f =>
+    -- the other parts of C18 live in their own driver modules
+    match [C18Fmt.handle?, C18Arc.handle?, C18Mat.handle?, C18Skel.handle?, C18Mdl.handle?,
+           C18Pbc.handle?].findSome? (fun h => h f) with
+    | some a => a
+    | none => bad
 
 end Physis.Driver.C18
